@@ -454,12 +454,14 @@ func applyMutant(id, name, scratch string) (map[string]string, error) {
 	for _, line := range strings.Split(string(pb), "\n") {
 		if strings.HasPrefix(line, "+++ ") {
 			f := strings.TrimSpace(strings.TrimPrefix(line, "+++ "))
-			f = strings.TrimPrefix(f, "b/")
 			if i := strings.IndexByte(f, '\t'); i >= 0 {
 				f = f[:i]
 			}
 			if f == "/dev/null" {
 				continue
+			}
+			if i := strings.IndexByte(f, '/'); i >= 0 { // -p1
+				f = f[i+1:]
 			}
 			dst := filepath.Join(mdir, f)
 			os.MkdirAll(filepath.Dir(dst), 0o755)
